@@ -182,7 +182,7 @@ def check_oracle(rep, b):
                            'expected': [ec, eo]})
             return False
         if ei and len(ei) < nfin:
-            rep.nontrivial((hkey, tuple(q)))
+            rep.nontrivial(hash((hkey, tuple(q))))
             c_some += 1
         elif not ei:
             c_none += 1
@@ -295,17 +295,20 @@ def run(rep):
             rep.count('build:absent_pages')
         if not check_oracle(rep, b):
             rep.count('oracle_failed')
+            if rep.hist['oracle_failed'] >= 25:
+                break       # the property is already refuted on the real code: stop enumerating
         if nb % 10 == 0:
             check_pickle(rep, b)
         if nb % 997 == 0:
             rep.sample({**b.meta(), 'queries': b.queries[:2], 'keys': b.keys,
                         'impl': b.impl[:2], 'total_bounds': b.tb}, cap=4)
-        b.tree_obj = None
+        # keep only the texts for the kernel and what is needed to re-run the build
+        light = (d, rows, ps, p, queries, tag)
         if queries is Q1D:
-            one.append((b, b.case_1d(), b.result_packed()))
+            one.append((light, b.case_1d(), b.result_packed()))
         else:
-            full.append((b, b.case_full(), b.result_packed()))
-        b.impl_sorted = [[sorted(x) for x in tr] for tr in b.impl]
+            full.append((light, b.case_full(), b.result_packed()))
+        del b
     rep.extra['builds'] = nb
     rep.extra['t_python_s'] = round(_t.time() - rep.t0, 1)
     rep.extra['cpu_python_s'] = round(_t.process_time(), 1)
@@ -314,7 +317,7 @@ def run(rep):
         bad = C.coq_mismatches(IMPORTS, fn, cty, PRES_TY, [g[1] for g in group], [g[2] for g in group],
                                shard=max(50, min(400, len(group) // (3 * C.NCPU) + 1)), timeout=1500)
         for i in bad:
-            sig, what, rp = diagnose(group[i][0])
+            sig, what, rp = diagnose(Build(*group[i][0]).run())
             if sig in seen:
                 continue
             seen.add(sig)
